@@ -18,9 +18,14 @@ cls_to_become = None: lazy-typed for ever), handed to fit with its parameters un
 forward (optimiser class and instance).  predicate: the batches fit asks the derivative to simulate (recorded by the derivative) are the k training and k * n_times
 validation batches of the requested size, preceded by the documented single-path placeholder batch iff the model has uninitialised parameters and the optimiser
 is a class (key fit:batches); parameters vs the explicit loop as always.  The "fit" op gets lazy = "has uninitialised parameters when fit is called".
+display option (all three loops): `verbose` is passed as True as well as False (the progress bar is written to the null device through the documented
+tqdm_kwargs) in every combination with `validation` and n_times - at random and as a deterministic corpus on every tier.  What fit computes does not depend
+on what it displays: the same batches (fit:batches), modes / gradient switches of every batch and loss evaluation (fit:protocol-trace), history and
+parameters vs the explicit loop, and the same event list of the Lean model (ops "fit" / "fit_num", which have no display option) - failure keys end in :verbose.
 """
 import copy
 import math
+import os
 from common import *  # noqa
 
 # the DOCUMENTED order of fit's options (docstring "Args:" of Hedger.fit, after `derivative`): a caller may pass any prefix of them by
@@ -42,6 +47,15 @@ def call_fit(fit, d, form, **opts):
     if any(nm not in opts for nm in lead):
         raise InternalError(f"call_fit: positional form needs {lead}")
     return call_impl(fit, d, *[opts[nm] for nm in lead], **{k_: v_ for k_, v_ in opts.items() if k_ not in lead})
+
+
+_NULL = open(os.devnull, "w")
+
+
+def display_opts(verbose):
+    """the display options of a fit call: verbose=True is PASSED as True - the progress bar goes to the null device through tqdm_kwargs, one of
+    fit's documented options (tqdm's own `disable` is not available to the caller: fit derives it from verbose)"""
+    return {"verbose": True, "tqdm_kwargs": {"file": _NULL}} if verbose else {"verbose": False}
 
 
 _USER_LAZY = {}
@@ -148,17 +162,22 @@ def check(ctx):
     LAZY_SPACE = [(False, None, False)] + [(True, kind_, mat_) for kind_ in ("torch", "user") for mat_ in (False, True)]
     lazy_ok = lambda ok_, lz_: not (ok_ == "instance" and lz_[0] and not lz_[2])
     if ctx.tier == "thorough":
-        forced = [dict(k=k_, n_times=nt_, optkind=ok_, lazy=lz_, validation=va_, hedge_list=hl_)
-                  for k_, nt_, ok_, lz_, va_, hl_ in itertools.product([0, 1, 2, 3], [1, 2, 3], ["cls", "instance"], LAZY_SPACE, [False, True], [False, True])
+        forced = [dict(k=k_, n_times=nt_, optkind=ok_, lazy=lz_, validation=va_, hedge_list=hl_, verbose=vb_)
+                  for k_, nt_, ok_, lz_, va_, hl_, vb_ in itertools.product([0, 1, 2, 3], [1, 2, 3], ["cls", "instance"], LAZY_SPACE, [False, True], [False, True], [False, True])
                   if lazy_ok(ok_, lz_)]
         ctx.extra["exhaustive_configurations"] = len(forced)
         ctx.extra["exhaustive_space"] = ("epochs {0..3} x n_times {1,2,3} x optimiser {class, instance} x model {no lazy layer, torch LazyLinear, user-defined lazy "
-                                         "layer; the lazy ones uninitialised (class only) / materialised by the caller} x validation x hedge list")
+                                         "layer; the lazy ones uninitialised (class only) / materialised by the caller} x validation x hedge list x verbose")
     else:
         # every tier: the lazy-model corner of that space as a deterministic corpus (does not depend on the seed)
         forced = [dict(k=k_, n_times=1, optkind=ok_, lazy=lz_, validation=va_, hedge_list=False)
                   for k_, ok_, lz_, va_ in itertools.product([0, 2], ["cls", "instance"], LAZY_SPACE[1:], [True, False]) if lazy_ok(ok_, lz_)]
         ctx.extra["lazy_corpus_configurations"] = len(forced)
+        # ... and the display option: every combination of validation x verbose x n_times (x optimiser form)
+        display = [dict(k=2, n_times=nt_, optkind=ok_, lazy=LAZY_SPACE[0], validation=va_, hedge_list=False, verbose=vb_)
+                   for nt_, va_, vb_, ok_ in itertools.product([1, 2, 3], [False, True], [True, False], ["cls", "instance"])]
+        ctx.extra["display_corpus_configurations"] = len(display)
+        forced = forced + display
     for it in range(n + len(forced)):
         k = g.choice([0, 1, 2, 3, 7]) if ctx.tier == "thorough" else g.choice([0, 1, 2, 3])
         n_paths = g.choice([1, 4, 16])
@@ -189,19 +208,23 @@ def check(ctx):
             crit_name = g.choice(["oce", "eloss"])
         if diverge == "lr" and crit_name == "oce" and wide and optkind == "instance":
             lr = g.choice([1e20, 1e30])      # OCE owns a float32 parameter: torch refuses a step size beyond the float32 range
+        # the display option: a progress bar is shown (verbose=True, fit's default) or not.  It changes nothing of what fit computes
+        verbose = g.chance(0.5)
         if it < len(forced):
             f_ = forced[it]
             k, n_times, optkind, validation, hedge_list = f_["k"], f_["n_times"], f_["optkind"], f_["validation"], f_["hedge_list"]
             lazy, lazy_kind, premat = f_["lazy"]
+            verbose = f_.get("verbose", verbose)
         lazy_kind = lazy_kind if lazy else None
         materialised = bool(lazy and (premat or optkind == "instance"))      # by the caller, before fit
         uninit = lazy and not materialised                                   # fit() meets uninitialised parameters
         case = {"epochs": k, "n_paths": n_paths, "n_times": n_times, "with_init": with_init, "opt": optkind, "optimizer": optname,
-                "lazy": lazy, "lazy_kind": lazy_kind, "materialised": materialised if lazy else None, "validation": validation, "hedge_list": hedge_list, "seed": seed, "criterion": crit_name, "wide_optimizer": wide and optkind == "instance", "call_form": call_form}
+                "lazy": lazy, "lazy_kind": lazy_kind, "materialised": materialised if lazy else None, "validation": validation, "hedge_list": hedge_list, "seed": seed, "criterion": crit_name, "wide_optimizer": wide and optkind == "instance", "call_form": call_form, "verbose": verbose}
         if diverge:
             case |= {"diverge": diverge, "dtype": str(dtc).replace("torch.", ""), "lr": lr}
         # failure keys of the new input classes are their own call sites
-        sfx = (":user-lazy" if lazy_kind == "user" else "") + ("" if call_form == "keyword" else ":positional") + (":nonfinite-loss" if diverge else "")
+        sfx = ((":user-lazy" if lazy_kind == "user" else "") + ("" if call_form == "keyword" else ":positional") + (":nonfinite-loss" if diverge else "")
+               + (":verbose" if verbose else ""))
         events = []
 
         def build():
@@ -295,7 +318,7 @@ def check(ctx):
         try:
             torch.manual_seed(seed + 1)
             st, hist, _ = call_fit(hedger.fit, d, call_form, hedge=hedge, n_epochs=k, n_paths=n_paths, n_times=n_times, optimizer=opt,
-                                   init_state=init_state, verbose=False, validation=validation)
+                                   init_state=init_state, validation=validation, **display_opts(verbose))
         finally:
             torch.Tensor.backward = orig_backward
         # the lazy placeholder's compute_pl contains no loss evaluation; mark it from the simulate(1) event
@@ -307,8 +330,9 @@ def check(ctx):
         # each validation epoch ends with history.append: not observable as an event; derive from the returned history
         ctx.case(case, nontrivial=k >= 1, tag="fit")
         ctx.traces += 1
-        for key in ("opt", "lazy", "validation", "call_form"):
+        for key in ("opt", "lazy", "validation", "call_form", "verbose"):
             ctx.stats[f"{key}={case[key]}"] += 1
+        ctx.stats[f"display:validation={validation}/verbose={verbose}/n_times={n_times}"] += 1
         if lazy:
             ctx.stats[f"lazy:{lazy_kind}/{'materialised' if materialised else 'uninitialised'}/{optkind}"] += 1
         if diverge:
@@ -460,7 +484,7 @@ def check(ctx):
             ctx.stats["second_fit"] += 1
             torch.manual_seed(seed + 2)
             st_b, hist_b, _ = call_fit(hedger.fit, d, call_form, hedge=hedge, n_epochs=k, n_paths=n_paths, n_times=n_times, optimizer=opt,
-                                       init_state=init_state, verbose=False, validation=validation)
+                                       init_state=init_state, validation=validation, **display_opts(verbose))
             torch.manual_seed(seed + 2)
             ref_opt_b = base_opt(list(hedger2.model.parameters()), lr=lr)
             for ep in range(k):
@@ -528,6 +552,10 @@ def check(ctx):
              "(main loop: 24 configurations; hand-unrolled loop: 4; fit_num: the first 3 attempts) and at random; simulated batches (number, sizes, order) "
              "recorded by the derivative = [1 if uninitialised and class] + k x (1 + n_times if validation) x [n_paths], exactly, in all three loops; "
              "call forms (all three loops): keywords / hedge, n_epochs, n_paths, n_times by position / all nine documented options by position; "
+             "display option (all three loops): verbose=True (progress bar written to the null device through tqdm_kwargs) and verbose=False, at random and as a "
+             "deterministic corpus of all combinations validation x verbose x n_times on every tier (main loop: 24 configurations with k = 2, optimiser class and "
+             "instance; hand-unrolled loop: the first 12 runs; fit_num: the first 12 attempts), thorough tier: a factor of the exhaustive space; the same batches, "
+             "event trace, history and parameters are demanded whatever is displayed (failure keys ending in :verbose); "
              "diverging runs (main loop: float64 and float32, SGD/Adam lr in {1e150, 1e300} resp. {1e20, 1e30}, or last layer x 2^40 under "
              "OCE(exp) / EntropicLoss: steps, history length, history values = means of the explicit loop's evaluations with inf / nan, parameters "
              "and step gradients bitwise with NaN = NaN; fit_num: counts exactly, numbers up to the first quantity that is non-finite or beyond 1e100); "
@@ -620,9 +648,13 @@ def check_prev_hedge(ctx, torch, g):
             lazy_user, materialised, uninit, optkind = True, it < 3, it == 3, ("cls", "cls", "instance", "cls")[it]
         if uninit:
             gain = 1.0      # (the first layer's weight does not exist yet)
-        sfx = (":user-lazy" if lazy_user else "") + ("" if call_form == "keyword" else ":positional")
+        # the display option (see the main loop): at random, and on every tier for every seed all combinations of validation x verbose x n_times
+        verbose = g.chance(0.5)
+        if it < 12:
+            verbose, validation, n_times = it % 2 == 0, (it // 2) % 2 == 0, 1 + it // 4
+        sfx = (":user-lazy" if lazy_user else "") + ("" if call_form == "keyword" else ":positional") + (":verbose" if verbose else "")
         case = {"prev_hedge": True, "lazy_kind": "user" if lazy_user else None, "materialised": materialised if lazy_user else None, "call_form": call_form, "inputs": names, "epochs": k, "n_paths": n_paths, "n_steps": n_steps, "n_times": n_times,
-                "validation": validation, "opt": optkind, "optimizer": optname, "lr": lr, "criterion": crit_name, "width": width,
+                "validation": validation, "verbose": verbose, "opt": optkind, "optimizer": optname, "lr": lr, "criterion": crit_name, "width": width,
                 "activation": act, "prev_hedge_gain": gain, "call": call, "strike": strike, "cost": cost, "with_init": with_init, "seed": seed}
         ctx.case(case, nontrivial=True, tag="fit_prev_hedge")
         ctx.traces += 1
@@ -663,8 +695,9 @@ def check_prev_hedge(ctx, torch, g):
         opt = HandOpt if optkind == "cls" else HandOpt(model.parameters())
         torch.manual_seed(seed + 1)
         st, hist, _ = call_fit(hedger.fit, d, call_form, hedge=None, n_epochs=k, n_paths=n_paths, n_times=n_times, optimizer=opt,
-                               init_state=init_state, verbose=False, validation=validation)
+                               init_state=init_state, validation=validation, **display_opts(verbose))
         ctx.stats[f"prev_hedge:call_form={call_form}"] += 1
+        ctx.stats[f"prev_hedge:display:validation={validation}/verbose={verbose}"] += 1
         if lazy_user:
             ctx.stats[f"prev_hedge:user-lazy/{'materialised' if materialised else 'uninitialised'}/{optkind}"] += 1
         fit_sims = list(sims)
@@ -807,9 +840,15 @@ def check_fit_num(ctx, torch):
             okw["lr"] = lr
         if diverge == "scale":
             crit_name = "eloss"
-        sfx = (":user-lazy" if lazy_user else "") + ("" if call_form == "keyword" else ":positional") + (":nonfinite-loss" if diverge else "")
+        # the display option (see the main loop): at random, and for the first attempts of every run all combinations of validation x verbose x n_times
+        verbose = g.chance(0.5)
+        if attempts <= 12:
+            verbose, validation, n_times = attempts % 2 == 1, (attempts // 2) % 2 == 0, 1 + (attempts - 1) // 4
+            k = max(k, 1)
+        sfx = ((":user-lazy" if lazy_user else "") + ("" if call_form == "keyword" else ":positional") + (":nonfinite-loss" if diverge else "")
+               + (":verbose" if verbose else ""))
         case = {"fit_num": True, "lazy_kind": "user" if lazy_user else None, "materialised": True if lazy_user else None, "call_form": call_form, "diverge": diverge, "epochs": k, "n_paths": n_paths, "n_steps": n_steps, "n_times": n_times, "validation": validation,
-                "opt": optkind, "optimizer": optname, "lr": lr, "momentum": momentum, "weight_decay": wd, "H": H, "inputs": names,
+                "verbose": verbose, "opt": optkind, "optimizer": optname, "lr": lr, "momentum": momentum, "weight_decay": wd, "H": H, "inputs": names,
                 "relu_mlp": relu, "hidden": hid if relu else None, "criterion": crit_name, "a": a, "es_k": kk, "call": call, "strike": strike,
                 "cost": cost, "cost2": cost2 if H == 2 else None, "listed_pricer": [pa, pb] if H == 2 else None, "with_init": with_init, "seed": seed}
         init_state = (1.25,) if with_init else None
@@ -867,7 +906,7 @@ def check_fit_num(ctx, torch):
         theta0 = [p.detach().clone() for p in model.parameters()]
         torch.manual_seed(seed + 1)
         st, hist, _ = call_fit(hedger.fit, d, call_form, hedge=hedge, n_epochs=k, n_paths=n_paths, n_times=n_times, optimizer=opt,
-                               init_state=init_state, verbose=False, validation=validation)
+                               init_state=init_state, validation=validation, **display_opts(verbose))
         fit_sims = list(sims)
         if st == "ok" and fit_sims != expected_batches(k, n_paths, n_times, validation, placeholder=False):
             ctx.fail("fit simulated other batches (number / sizes) than the k training and k * n_times validation batches of the requested size; the model "
@@ -961,7 +1000,8 @@ def check_fit_num(ctx, torch):
             if twin_err is not None:
                 continue
         for key_ in (f"fit_num:call_form={call_form}", f"fit_num:diverge={diverge}", f"fit_num:opt={optkind}/{optname}", f"fit_num:epochs={k}", f"fit_num:crit={crit_name}", f"fit_num:H={H}",
-                     f"fit_num:prev_hedge={prev}", f"fit_num:user_lazy_layer={lazy_user}", f"fit_num:cost>0={cost > 0 or (H == 2 and cost2 > 0)}", f"fit_num:validation={validation}"):
+                     f"fit_num:prev_hedge={prev}", f"fit_num:user_lazy_layer={lazy_user}", f"fit_num:cost>0={cost > 0 or (H == 2 and cost2 > 0)}", f"fit_num:validation={validation}",
+                     f"fit_num:display:validation={validation}/verbose={verbose}"):
             ctx.stats[key_] += 1
         if kink or small_grad:
             rejected += 1
